@@ -273,6 +273,11 @@ func (g *Gen) applyContract(ct *Contract, names []string, args []*Val, sig *type
 			g.heap[s] = g.freshConst("Hany"+s, g.heapSort(s))
 		}
 	} else {
+		for _, s := range ct.ModSorts {
+			if _, ok := g.heap[s]; ok {
+				g.heap[s] = g.freshConst("Hany"+s, g.heapSort(s))
+			}
+		}
 		for _, m := range ct.Modifies {
 			if g.eng.ghostModifies(g, env, m) {
 				continue
@@ -293,7 +298,7 @@ func (g *Gen) applyContract(ct *Contract, names []string, args []*Val, sig *type
 		}
 	}
 	preNext := g.nextobj
-	if otherFresh || ct.ModAny {
+	if otherFresh || ct.ModAny || len(ct.ModSorts) > 0 {
 		// the callee may allocate an unknown number of objects: new objects have arbitrary rows
 		nn := g.freshConst("nextobj_c", "Int")
 		g.assumeRaw(fmt.Sprintf("(>= %s %s)", nn, preNext))
@@ -375,7 +380,7 @@ func (g *Gen) applyContract(ct *Contract, names []string, args []*Val, sig *type
 			post.vars[n] = res
 		}
 	}
-	if !(otherFresh || ct.ModAny) {
+	if !(otherFresh || ct.ModAny || len(ct.ModSorts) > 0) {
 		// exactly known fresh objects: object ids preNext, preNext+1, ...; their rows are arbitrary
 		for i, fe := range exactFresh {
 			post.heap = g.heap
@@ -527,6 +532,18 @@ func (g *Gen) appendOp(cc *ssa.CallCommon, resT types.Type, pos token.Pos) *Val 
 		// in place: cells outside [off+len*sz, off+newLen*sz) keep their values
 		g.assumeRaw(fmt.Sprintf("(=> %s (forall ((k Int)) (! (=> (not (and (<= (+ %s (* %d %s)) k) (< k (+ %s (* %d %s))))) (= (select %s k) (select (select %s %s) k))) :pattern ((select %s k)))))",
 			inPlace, s.S[1], sz, s.S[2], s.S[1], sz, newLen, row, old, s.S[0], row))
+		if _, isPtrElem := st.Elem().Underlying().(*types.Pointer); isPtrElem && srt == "Int" && sz == 2 && nElems == 1 && g.hasPrelude("batchspec") {
+			// pointer slices: the same two facts (prefix kept, new last element) restated through the pointer accessors
+			// pobj/poff of spec/batchspec.smt2 - consequences of the cell-level facts above and of the accessors' defining
+			// axioms, given in the form quantified invariants over pointer slices are written in (arithmetic inside select
+			// is no usable E-matching trigger)
+			g.use("prelude:batchspec")
+			oldRow := fmt.Sprintf("(select %s %s)", old, s.S[0])
+			g.assumeRaw(fmt.Sprintf("(forall ((j Int)) (! (=> (and (<= 0 j) (< j %s)) (and (= (pobj %s %s j) (pobj %s %s j)) (= (poff %s %s j) (poff %s %s j)))) :pattern ((pobj %s %s j)) :pattern ((poff %s %s j))))",
+				s.S[2], row, roff, oldRow, s.S[1], row, roff, oldRow, s.S[1], row, roff, row, roff))
+			g.assumeRaw(fmt.Sprintf("(and (= (pobj %s %s %s) (select (select %s %s) %s)) (= (poff %s %s %s) (select (select %s %s) %s)))",
+				row, roff, s.S[2], old, t.S[0], addOff(t.S[1], 0), row, roff, s.S[2], old, t.S[0], addOff(t.S[1], 1)))
+		}
 		g.heap[srt] = g.def("H"+srt, g.heapSort(srt), fmt.Sprintf("(store %s %s %s)", old, robj, row))
 	}
 	return &Val{T: resT, Sort: "Slice", S: []string{robj, roff, newLen, rcap}}
@@ -549,4 +566,14 @@ func (g *Gen) copyOp(cc *ssa.CallCommon, resT types.Type, pos token.Pos) *Val {
 		g.heap[srt] = g.def("H"+srt, g.heapSort(srt), fmt.Sprintf("(store %s %s %s)", old, d.S[0], row))
 	}
 	return scalar("Int", n, resT)
+}
+
+// hasPrelude: the unit's contract names the prelude explicitly.
+func (g *Gen) hasPrelude(name string) bool {
+	for _, p := range g.ct.Preludes {
+		if p == name {
+			return true
+		}
+	}
+	return false
 }
